@@ -9,4 +9,6 @@ INVARIANT RejectsDropped
 INVARIANT RejectsAlwaysBlank
 INVARIANT RejectsPluralOne
 INVARIANT Examples
+INVARIANT RejectsMovedUnderline
+INVARIANT DiagExample
 CHECK_DEADLOCK FALSE
